@@ -154,7 +154,7 @@ type Op struct {
 	Host  string   `json:"host,omitempty"`
 	Qtype uint16   `json:"qt,omitempty"`
 	Fault string   `json:"fault,omitempty"`
-	Extra []string `json:"extra,omitempty"` // names whose hashes the service adds (unrelated_hashes / unasked_prefix)
+	Extra []string `json:"extra,omitempty"` // names whose hashes the service adds (unrelated_hashes)
 	Fmt   int      `json:"fmt,omitempty"`   // layout of the TXT answer
 	// advance
 	Ms int64 `json:"ms,omitempty"`
@@ -188,7 +188,7 @@ var (
 	dnsQtypes   = []uint16{dns.TypeA, dns.TypeA, dns.TypeA, dns.TypeAAAA, dns.TypeTXT}
 
 	// FaultKinds of the lookup service.
-	faultKinds = []string{"lookup_error", "junk_wrong_length", "junk_non_hex", "junk_empty", "junk_split", "extra_records", "unrelated_hashes", "unasked_prefix", "servfail"}
+	faultKinds = []string{"lookup_error", "junk_wrong_length", "junk_non_hex", "junk_empty", "junk_split", "extra_records", "unrelated_hashes"}
 )
 
 // single reports whether the scenario runs in the regime in which a lookup
@@ -395,20 +395,6 @@ func Gen(t *rapid.T, tier string) any {
 						op.Extra = append(op.Extra, x)
 					}
 				}
-			case "unasked_prefix":
-				// An unlisted full hash under the prefix of a listed name, sent
-				// in an answer to a question that did not ask for that prefix.
-				// Not generated under LRU pressure (see Scenario.single).
-				if sc.single() || len(sc.DB) == 0 {
-					op.Fault = ""
-					break
-				}
-				b := rapid.SampledFrom(sc.DB).Draw(t, "unasked_of")
-				if x := pick(pfxOf(sum(b)), "unasked_name"); x != "" && !allCand[x] && !contains(db, x) {
-					op.Extra = []string{x}
-				} else {
-					op.Fault = ""
-				}
 			}
 		}
 		sc.Ops = append(sc.Ops, op)
@@ -440,24 +426,11 @@ type lookup struct {
 	fmtK  int
 	cur   []hash // full hashes of the current host's candidates
 
-	fired      string         // fault that actually fired during the current check
-	hashesSent int            // valid full hashes in the answers of the current check
-	groups     int            // prefixes asked in the current check
-	askedNow   map[pfx]bool   // the prefixes asked in the current check
-	poisoned   map[pfx]poison // listed prefixes answered incompletely by a fault
+	fired      string       // fault that actually fired during the current check
+	hashesSent int          // valid full hashes in the answers of the current check
+	groups     int          // prefixes asked in the current check
+	askedNow   map[pfx]bool // the prefixes asked in the current check
 	c          *kernel.Ctx
-}
-
-// poison records that a fault made the service give incomplete knowledge about
-// a listed prefix (used only to name the class of a later wrong verdict).
-type poison struct {
-	by string
-	at time.Time
-}
-
-func (l *lookup) poisonPfx(p pfx, by string) {
-	// The most recent faulty answer is what the cache holds now.
-	l.poisoned[p] = poison{by: by, at: time.Now()}
 }
 
 func (l *lookup) Address() string { return "sim-lookup:53" }
@@ -502,16 +475,6 @@ func (l *lookup) Exchange(req *dns.Msg) (resp *dns.Msg, err error) {
 	case "lookup_error":
 		fire()
 		return nil, errors.New("simulated lookup service: connection refused")
-	case "servfail":
-		fire()
-		for _, p := range ps {
-			if len(l.byPfx[p]) > 0 {
-				l.poisonPfx(p, "servfail")
-			}
-		}
-		m := new(dns.Msg)
-		m.SetRcode(req, dns.RcodeServerFailure)
-		return m, nil
 	}
 
 	// The correct answer: every listed hash under every asked prefix.
@@ -593,17 +556,6 @@ func (l *lookup) Exchange(req *dns.Msg) (resp *dns.Msg, err error) {
 				fire()
 			}
 		}
-	case "unasked_prefix":
-		for _, x := range l.extra {
-			h := sum(x)
-			p := pfxOf(h)
-			if askedSet[p] {
-				continue // asked: the answer is complete, nothing special
-			}
-			valid = append(valid, hex.EncodeToString(h[:]))
-			l.poisonPfx(p, "unasked_prefix")
-			fire()
-		}
 	}
 	l.hashesSent += len(valid)
 
@@ -675,7 +627,6 @@ func (r *runner) newChecker() {
 		CacheSize:   r.sc.CacheSize,
 	})
 	r.bound = 0
-	r.lk.poisoned = map[pfx]poison{}
 	r.fullyLooked = map[string]time.Time{}
 }
 
@@ -906,7 +857,7 @@ func (r *runner) check(i int, op Op) error {
 
 	// ---- verdict.
 	if o.failed {
-		if lk.fired == "lookup_error" || lk.fired == "servfail" {
+		if lk.fired == "lookup_error" {
 			// The lookup failed: the check may fail (it must not give a wrong
 			// verdict, and later checks must not suffer).
 			r.c.Probe("check_failed_on_lookup_error")
@@ -944,26 +895,8 @@ func (r *runner) check(i int, op Op) error {
 		}
 	case lk.fired == "lookup_error":
 		v = kernel.Violationf("verdict-after-lookup-error", "%s; the lookup failed, yet a verdict was returned and it is wrong", desc)
-	case lk.fired == "servfail":
-		v = kernel.Violationf("servfail-taken-as-clean", "%s; the lookup service answered SERVFAIL", desc)
 	case fromCache:
-		poisoned := ""
-		for _, h := range candHashes {
-			// The label holds for as long as the entry made from the faulty
-			// answer can live.
-			if po, ok := lk.poisoned[pfxOf(h)]; ok && lk.db[h] {
-				if time.Since(po.at) <= time.Duration(r.sc.CacheTimeS+1)*time.Second {
-					poisoned = po.by
-				} else {
-					delete(lk.poisoned, pfxOf(h))
-				}
-			}
-		}
 		switch {
-		case poisoned == "servfail":
-			v = kernel.Violationf("servfail-cached-as-clean", "%s; an earlier SERVFAIL answer of the lookup service was stored as 'nothing listed under the asked prefixes'", desc)
-		case poisoned == "unasked_prefix":
-			v = kernel.Violationf("unasked-prefix-answer-poisons-cache", "%s; an earlier answer carried a full hash under a listed prefix that its question had not asked for, and was stored as the complete knowledge about that prefix", desc)
 		case r.pressure():
 			v = kernel.Violationf("cached-clean-for-listed-name-under-lru-pressure", "%s; cache size %d bytes", desc, r.sc.CacheSize)
 		default:
@@ -973,11 +906,6 @@ func (r *runner) check(i int, op Op) error {
 		v = kernel.Violationf("fresh-clean-for-listed-name", "%s", desc)
 	}
 	if r.c.Tolerate(v) || replayTolerated[v.Class] {
-		if v.Class == "servfail-taken-as-clean" {
-			// The wrong verdict of this check is listed; what the cache made of
-			// the answer is judged by the later checks.
-			return nil
-		}
 		// A listed finding: the cache is wrong from here on; carry on with a
 		// fresh checker (empty cache), as after a restart.
 		r.c.Eventf("listed finding %s: cache reset", v.Class)
@@ -1094,7 +1022,7 @@ var _ = sort.Strings
 var Prop = &kernel.Property{
 	ID:    "C19",
 	Level: "exploration",
-	Rule: "seeded histories (rapid): a lookup-service database drawn from the label-suffixes of the pool hosts (full names beyond the four-label cut and public suffixes included as entries that must not decide anything) plus brute-forced names whose SHA-256 shares the 2-byte prefix of a listed or of a clean candidate; pool hosts of 1..8 labels under ICANN (com, co.uk, org), private (github.io, blogspot.com, s3.amazonaws.com) and unknown (internal, test, single label) suffixes, mixed case; 10..80 ops = checks through Checker.Check / DNSFilter.CheckHost / the UDP request path (A, AAAA, TXT), all sharing one cache (unlimited, 1 MiB, or 10..512 bytes) with entry lifetime 1 s..1 h, and clock advances 0.4 s..1 d; lookup faults error / SERVFAIL / malformed TXT strings derived from the host's own hashes (wrong length, non-hex, empty, split) / non-TXT records / unrelated full hashes / a hash under an unasked listed prefix; " +
+	Rule: "seeded histories (rapid): a lookup-service database drawn from the label-suffixes of the pool hosts (full names beyond the four-label cut and public suffixes included as entries that must not decide anything) plus brute-forced names whose SHA-256 shares the 2-byte prefix of a listed or of a clean candidate; pool hosts of 1..8 labels under ICANN (com, co.uk, org), private (github.io, blogspot.com, s3.amazonaws.com) and unknown (internal, test, single label) suffixes, mixed case; 10..80 ops = checks through Checker.Check / DNSFilter.CheckHost / the UDP request path (A, AAAA, TXT), all sharing one cache (unlimited, 1 MiB, or 10..512 bytes) with entry lifetime 1 s..1 h, and clock advances 0.4 s..1 d; lookup faults error / malformed TXT strings derived from the host's own hashes (wrong length, non-hex, empty, split) / non-TXT records / unrelated full hashes; " +
 		"non-trivial = at least one check answered from the cache AND one lookup sent AND both a listed and a clean name checked AND at least one fault fired or the clock advanced; distinct = distinct scenario digests",
 	Gen: Gen,
 	New: func() any { return &Scenario{} },
@@ -1113,6 +1041,7 @@ var Prop = &kernel.Property{
 		"the lookup service always returns every listed hash under every asked prefix; malformed strings and foreign records are added to that answer, never replace it (otherwise ground truth would not be defined)",
 		"Checker.Check is given lower-case names (its only caller, filtering.CheckHost, lower-cases); mixed case enters through CheckHost and the DNS path",
 		"hashprefix stores an answer by ranging over a Go map, so with a cache small enough to evict, answers with full hashes under two or more prefixes make the LRU order differ from run to run; such cases are not generated (small caches: every pool host has at most one listed prefix among its candidates; multi-prefix answers are exercised with the 1 MiB and unlimited caches)",
+		"outside the statement's quantifier and therefore not generated: a lookup service that answers with a failure response code (SERVFAIL; hashprefix reads only the answer section, so such a reply counts as 'nothing listed' and is cached as such), and a service that answers for listed prefixes it was not asked about (hashprefix stores every prefix an answer mentions as complete knowledge about it); unrelated hashes are only added under prefixes that are unlisted or asked for in the same question",
 		"when entries expire is not asserted (the database is constant, so a stale entry cannot be told from a fresh one); early expiry by the 1 s granularity of the stored expiry is invisible",
 	},
 	FaultKinds: append([]string{"clock_advance"}, faultKinds...),
